@@ -17,7 +17,7 @@ R4 = {'C17_d': 'missed first: no TM text whose tape_symbols declaration omits th
       'C19_e': 'missed first: operand-intact monitor only saw first-stage calls -> second-stage (pipeline) calls on the results of earlier phases',
       'C02_e': 'caught marginally (few observations) -> larger CNF grammars and bounds in C02'}
 out = []
-ids = sorted(os.listdir(os.path.join(root, 'seeded')))
+ids = sorted(i for i in os.listdir(os.path.join(root, 'seeded')) if os.path.isdir(os.path.join(root, 'seeded', i)))
 rounds = {}
 for id_ in ids:
     mp = os.path.join(root, 'seeded', id_, 'meta.json')
